@@ -7,12 +7,16 @@
 
     * three-asset stableswap pool — model WW/Model/Trio.lean (engine `trio`), lemmas in WW/Proofs/Trio.lean
     * flash-loan vault           — model WW/Model/Vault.lean (engine `vault`), lemmas in WW/Proofs/VaultLedger.lean
-    * constant-product / two-asset stableswap pair — model WW/Model/Pair.lean (engine `pair`,
-      `pairledger`), lemmas in WW/Proofs/Pair.lean (section at the end of this file)
+    * constant-product / two-asset stableswap pair — model WW/Model/Pair.lean (engine `pair`), lemmas
+      in WW/Proofs/Pair.lean (section at the end of this file).  The pair theorems are stated for an
+      ARBITRARY `Curve` (swap computation + LP mint rule), so they cover the constant-product and the
+      two-asset stableswap pair alike: the ledger code in `commands.rs` is shared by both.
 -/
 import WW.Proofs.Trio
 import WW.Proofs.VaultLedger
 import WW.Props.C05
+import WW.Proofs.Pair
+import WW.Props.C01
 namespace WW.C07
 open WW
 
@@ -123,5 +127,72 @@ example :
     let s := Vault.reach s0 [.deposit 0 1000000 1000000, .loan 500000 [.pay 507000], .collect, .loan 100000 [.pay 101400]]
     (s.pend, s.sent, s.allTime, s.burned, s0.assetSupply - s.assetSupply) = (1000, 5000, 6000, 600, 600) := by
   decide
+
+/-! ## constant-product / two-asset stableswap pair (any `Curve`) -/
+
+/-- in every state reachable from a state satisfying the ledger invariant (e.g. a freshly
+    instantiated pair, `pair_ledger_init`), by ANY history of provide / swap / withdraw / collect /
+    fee changes / plain transfers / malformed swaps, for BOTH assets and ANY pair type:
+    pending = charged − transferred to the collector; all-time collected = Σ protocol-fee charges;
+    all-time burned = Σ burn charges; the collector holds exactly what collections sent it;
+    circulating amount + burned = constant (burned amounts really leave circulation); and every
+    circulating unit is on the pair, with the collector or with a user (nothing else moves) -/
+theorem pair_ledger_eq {cv : Pair.Curve} {K0 C0 K1 C1 : Nat} (s : Pair.St) (hL : Pair.LInv K0 C0 K1 C1 s)
+    (ops : List Pair.Op) :
+    let s' := Pair.reach cv s ops
+    (s'.x0.pend = s'.x0.chg - s'.x0.sent ∧ s'.x0.sent ≤ s'.x0.chg ∧ s'.x0.allTime = s'.x0.chg ∧
+      s'.x0.burned = s'.x0.brn ∧ s'.x0.col = C0 + s'.x0.sent ∧ s'.x0.tot + s'.x0.brn = K0 ∧
+      s'.x0.tot = s'.x0.bal + s'.x0.col + Pair.sumF (·.a) s'.users) ∧
+    (s'.x1.pend = s'.x1.chg - s'.x1.sent ∧ s'.x1.sent ≤ s'.x1.chg ∧ s'.x1.allTime = s'.x1.chg ∧
+      s'.x1.burned = s'.x1.brn ∧ s'.x1.col = C1 + s'.x1.sent ∧ s'.x1.tot + s'.x1.brn = K1 ∧
+      s'.x1.tot = s'.x1.bal + s'.x1.col + Pair.sumF (·.b) s'.users) := by
+  intro s'
+  have h : Pair.LInv K0 C0 K1 C1 s' := Pair.reach_linv (cv := cv) s hL ops
+  have a := h.l0; have b := h.l1; have c := h.cons
+  have := a.ledger; have := b.ledger
+  exact ⟨⟨by omega, by omega, a.allTime, a.burned, a.col, a.supply, c.c0⟩,
+         ⟨by omega, by omega, b.allTime, b.burned, b.col, b.supply, c.c1⟩⟩
+
+/-- the ledger invariant holds right after instantiation (nothing charged, sent or burned) -/
+theorem pair_ledger_init (n0 n1 : Bool) (f : Fees) (us : List Pair.User) :
+    Pair.LInv (Pair.sumF (·.a) us) 0 (Pair.sumF (·.b) us) 0 (Pair.init n0 n1 f us) :=
+  Pair.init_linv n0 n1 f us
+
+/-- **only swaps charge, only collections pay the collector, counters only grow**: one successful
+    operation adds `(pf, bf)` to charged / all-time and burn-sum / burned counters — non-zero only for a
+    swap — and moves `sent` from the pending ledger to the collector — non-zero only for a collection -/
+theorem pair_step_ledger {cv : Pair.Curve} {s s' : Pair.St} {op : Pair.Op} (h : Pair.step cv s op = .ok s') :
+    ∃ pf0 bf0 st0 pf1 bf1 st1, Pair.SideDelta s.x0 s'.x0 pf0 bf0 st0 ∧ Pair.SideDelta s.x1 s'.x1 pf1 bf1 st1 ∧
+      ((pf0 ≠ 0 ∨ bf0 ≠ 0 ∨ pf1 ≠ 0 ∨ bf1 ≠ 0) →
+        (∃ u dir off ms rcv, op = .swap u dir off ms rcv) ∨ (∃ u dir off sent, op = .swapBad u dir off sent)) ∧
+      ((st0 ≠ 0 ∨ st1 ≠ 0) → op = .collect) := Pair.step_deltas h
+
+/-- **collecting transfers exactly the pending entries above the 1000 threshold to the configured
+    collector and to no one else** (entries at or below it stay on the ledger), and changes neither the
+    reported reserves, nor the counters, nor the LP supply, nor any user's balance -/
+theorem pair_collect_exact {s s' : Pair.St} (h : Pair.collect s = .ok s') :
+    (s'.x0.col = s.x0.col + (if 1000 < s.x0.pend then s.x0.pend else 0) ∧
+      s'.x0.pend = (if 1000 < s.x0.pend then 0 else s.x0.pend) ∧
+      s.x0.bal - s'.x0.bal = (if 1000 < s.x0.pend then s.x0.pend else 0) ∧ s'.x0.res = s.x0.res ∧
+      s'.x0.allTime = s.x0.allTime ∧ s'.x0.burned = s.x0.burned ∧ s'.x0.tot = s.x0.tot) ∧
+    (s'.x1.col = s.x1.col + (if 1000 < s.x1.pend then s.x1.pend else 0) ∧
+      s'.x1.pend = (if 1000 < s.x1.pend then 0 else s.x1.pend) ∧
+      s.x1.bal - s'.x1.bal = (if 1000 < s.x1.pend then s.x1.pend else 0) ∧ s'.x1.res = s.x1.res ∧
+      s'.x1.allTime = s.x1.allTime ∧ s'.x1.burned = s.x1.burned ∧ s'.x1.tot = s.x1.tot) ∧
+    s'.users = s.users ∧ s'.sup = s.sup ∧ s'.lpPair = s.lpPair ∧ s'.fees = s.fees := by
+  obtain ⟨y0, y1, h0, h1, e⟩ := Pair.collect_ok h
+  subst e
+  obtain ⟨c0, p0, d0, _, r0, a0, b0, _, _, t0, _⟩ := Pair.collectSide_exact h0
+  obtain ⟨c1, p1, d1, _, r1, a1, b1, _, _, t1, _⟩ := Pair.collectSide_exact h1
+  have hm : Gen.PAIR_MINIMUM_COLLECTABLE_BALANCE = 1000 := rfl
+  simp only [Pair.collectable, hm, decide_eq_true_eq] at c0 p0 d0 c1 p1 d1
+  exact ⟨⟨c0, p0, d0, r0, a0, b0, t0⟩, ⟨c1, p1, d1, r1, a1, b1, t1⟩, rfl, rfl, rfl, rfl⟩
+
+/-- non-vacuity: a constant-product history with a charged swap, a collection above the threshold and
+    a second swap whose fee stays below it -/
+example :
+    let s := Pair.reach Pair.cpCurve WW.C01.exInit WW.C01.exOps
+    s.x1.chg = 1142 ∧ s.x1.sent = 1142 ∧ s.x1.pend = 0 ∧ s.x0.chg = 24 ∧ s.x0.pend = 24 ∧ s.x0.sent = 0 ∧
+    s.x1.tot + 1142 = 3000000000 := by decide
 
 end WW.C07
